@@ -58,7 +58,7 @@ def bindParams (isPath : Bool) : List UrlParam → Fields UV → Except Str (Fie
       if isPath && t == [] then .error p.field
       else if !isPath && p.isList then
         -- `for _, value := range values`: every occurrence is converted and appended
-        match p.texts.mapM (fun tv => convertUrl p.kind tv.1 tv.2) with
+        match bindList (fun tv => convertUrl p.kind tv.1 tv.2) p.texts with
         | none => .error p.field
         | some vs => bindParams isPath ps (fset p.field (.l vs) m)
       else match convertUrl p.kind t p.floatOk with
